@@ -42,26 +42,112 @@ struct Job<T> {
     expected: Vec<C<T>>,
 }
 
+/// Per-thread buffers that live across rounds: the scratch is never cleared between calls (realistic reuse), so any
+/// dependence of the output bits on what an earlier call left in the scratch shows up as a mismatch.
+struct Persistent<T> {
+    data: Vec<C<T>>,
+    out: Vec<C<T>>,
+    scratch: Vec<C<T>>,
+}
+impl<T: Elem> Persistent<T> {
+    fn new(fft: &dyn Fft<T>, job: &Job<T>, poison: bool) -> Self {
+        let fill = if poison { C::new(T::nan(), T::nan()) } else { C::new(T::from_f64r(0.0), T::from_f64r(0.0)) };
+        let adv = job.entry.adv_scratch(fft);
+        Persistent { data: job.input.clone(), out: vec![fill; job.input.len()], scratch: vec![fill; adv + 3] }
+    }
+    /// returns Err(panic message) or Ok(()) with the result in `data` (in-place entries) or `out`
+    fn call(&mut self, fft: &dyn Fft<T>, job: &Job<T>) -> Result<bool, String> {
+        self.data.copy_from_slice(&job.input);
+        let (data, out, scratch) = (&mut self.data, &mut self.out, &mut self.scratch);
+        let r = std::panic::catch_unwind(std::panic::AssertUnwindSafe(|| match job.entry {
+            Entry::Process => fft.process(data),
+            Entry::Inplace => fft.process_with_scratch(data, scratch),
+            Entry::OutOfPlace => fft.process_outofplace_with_scratch(data, out, scratch),
+            Entry::Immut => fft.process_immutable_with_scratch(data, out, scratch),
+        }));
+        match r {
+            Err(e) => Err(panic_message(e)),
+            Ok(()) => {
+                let res = match job.entry {
+                    Entry::Process | Entry::Inplace => &self.data,
+                    _ => &self.out,
+                };
+                Ok(bits_equal(res, &job.expected))
+            }
+        }
+    }
+}
+
 fn run_call<T: Elem>(fft: &dyn Fft<T>, job: &Job<T>, place: Place) -> CallResult<T> {
     let mut shape = plain_shape(fft, job.entry, job.input.len());
     shape.place = place;
     invoke(fft, &job.input, &shape)
 }
 
+/// Transform instances obtained through the public constructors (they are `Fft` instances like any other)
+fn constructed<T: Elem>(kind: usize, n: usize, dir: Dir, planner: &mut AnyPlanner<T>) -> (String, Arc<dyn Fft<T>>) {
+    use rustfft::algorithm::*;
+    let d = fdir(dir);
+    let n = n.max(2);
+    match kind % 6 {
+        0 => {
+            // Bluestein with a generous inner length (>= 3*len), the documented "any inner length >= 2*len-1" freedom
+            let len = n.min(1500);
+            let m = (3 * len).next_power_of_two();
+            (format!("BluesteinsAlgorithm({},planned({}))", len, m), Arc::new(BluesteinsAlgorithm::new(len, planner.plan(m, dir))))
+        }
+        1 => {
+            let mut p = n.max(3);
+            while !crate::cases::is_prime(p) {
+                p += 1;
+            }
+            (format!("RadersAlgorithm(planned({}))", p - 1), Arc::new(RadersAlgorithm::new(planner.plan(p - 1, dir))))
+        }
+        2 => {
+            let a = 2 + n % 29;
+            let b = (n / a).max(2);
+            (format!("MixedRadix(planned({}),planned({}))", a, b), Arc::new(MixedRadix::new(planner.plan(a, dir), planner.plan(b, dir))))
+        }
+        3 => {
+            let a = 7 + 2 * (n % 5);
+            let mut b = (n / a).max(2);
+            while crate::trees_gcd(a, b) != 1 {
+                b += 1;
+            }
+            (format!("GoodThomasAlgorithm(planned({}),planned({}))", a, b), Arc::new(GoodThomasAlgorithm::new(planner.plan(a, dir), planner.plan(b, dir))))
+        }
+        4 => {
+            let len = n.next_power_of_two().min(4096);
+            (format!("Radix4::new({})", len), Arc::new(Radix4::new(len, d)))
+        }
+        _ => {
+            let len = 2 + n % 60;
+            (format!("Dft({})", len), Arc::new(Dft::new(len, d)))
+        }
+    }
+}
+
 #[allow(clippy::too_many_arguments)]
-fn stress_instance<T: Elem>(st: &mut Stats, pk: PK, n: usize, dir: Dir, threads: usize, rounds: usize, seed: u64, light: bool) {
+fn stress_instance<T: Elem>(st: &mut Stats, pk: PK, n: usize, dir: Dir, threads: usize, rounds: usize, seed: u64, light: bool, ctor_kind: Option<usize>) {
     // the planner is moved into another thread and used there (Send), the transform comes back and is shared (Sync)
     let planner = match AnyPlanner::<T>::new(pk) {
         Some(p) => p,
         None => return,
     };
-    let fft: Arc<dyn Fft<T>> = std::thread::spawn(move || {
+    let (label, fft): (String, Arc<dyn Fft<T>>) = std::thread::spawn(move || {
         let mut planner = planner;
-        planner.plan(n, dir)
+        match ctor_kind {
+            None => (format!("n={}", n), planner.plan(n, dir)),
+            Some(k) => {
+                let (text, f) = constructed::<T>(k, n, dir, &mut planner);
+                (format!("ctor={}", text), f)
+            }
+        }
     })
     .join()
     .unwrap();
-    let case_base = format!("planner={} type={} dir={} n={} threads={} rounds={}", pk.name(), T::NAME, dname(dir), n, threads, rounds);
+    let n = fft.len();
+    let case_base = format!("planner={} type={} dir={} {} threads={} rounds={}", pk.name(), T::NAME, dname(dir), label, threads, rounds);
     crate::guard::set_case(&format!("C11 {}", case_base));
     let per_thread = if light { 2 } else { 4 };
     // sequential references, computed before any concurrency
@@ -97,6 +183,7 @@ fn stress_instance<T: Elem>(st: &mut Stats, pk: PK, n: usize, dir: Dir, threads:
             let mut intervals: Vec<(u64, u64)> = Vec::with_capacity(rounds);
             let mut mismatches: Vec<String> = vec![];
             let mut calls = 0usize;
+            let mut persistent: Vec<Persistent<T>> = jobs[t].iter().map(|j| Persistent::new(&*fft, j, t % 2 == 1)).collect();
             barrier.wait();
             for r in 0..rounds {
                 // seed-derived jitter staggers the threads differently in every round
@@ -104,16 +191,26 @@ fn stress_instance<T: Elem>(st: &mut Stats, pk: PK, n: usize, dir: Dir, threads:
                 for _ in 0..spins {
                     std::hint::spin_loop();
                 }
-                let job = &jobs[t][r % jobs[t].len()];
+                let ji = r % jobs[t].len();
+                let job = &jobs[t][ji];
                 let a = t0.elapsed().as_nanos() as u64;
-                let res = run_call(&*fft, job, if r % 2 == 0 { Place::Tail } else { Place::Head });
+                // most rounds reuse this thread's own (dirty) buffers; every 8th goes through fresh guard-paged buffers
+                let verdict: Result<bool, String> = if r % 8 == 7 {
+                    let res = run_call(&*fft, job, if r % 16 == 7 { Place::Tail } else { Place::Head });
+                    match res.outcome {
+                        Err(m) => Err(m),
+                        Ok(()) => Ok(bits_equal(&res.result, &job.expected)),
+                    }
+                } else {
+                    persistent[ji].call(&*fft, job)
+                };
                 let b = t0.elapsed().as_nanos() as u64;
                 intervals.push((a, b));
                 calls += 1;
-                if res.outcome.is_err() {
-                    mismatches.push(format!("thread={} round={} entry={} k={}: call panicked", t, r, job.entry.name(), job.k));
-                } else if !bits_equal(&res.result, &job.expected) {
-                    mismatches.push(format!("thread={} round={} entry={} k={}: output bits differ from the isolated call", t, r, job.entry.name(), job.k));
+                match verdict {
+                    Err(m) => mismatches.push(format!("thread={} round={} entry={} k={}: call panicked: {}", t, r, job.entry.name(), job.k, m)),
+                    Ok(false) => mismatches.push(format!("thread={} round={} entry={} k={} reused_scratch={}: output bits differ from the isolated call", t, r, job.entry.name(), job.k, r % 8 != 7)),
+                    Ok(true) => {}
                 }
             }
             (intervals, mismatches, calls)
@@ -158,7 +255,10 @@ fn stress_instance<T: Elem>(st: &mut Stats, pk: PK, n: usize, dir: Dir, threads:
             }
         }
     }
-    st.set_distinct(&format!("{}|{}|{}|{}", pk.name(), T::NAME, dname(dir), n));
+    st.set_distinct(&format!("{}|{}|{}|{}", pk.name(), T::NAME, dname(dir), label));
+    if ctor_kind.is_some() {
+        st.inc("constructed_instances_stressed");
+    }
     if n >= 16 {
         st.sample(3, || J::obj(vec![("case", J::s(&case_base)), ("calls", J::u(calls)), ("overlapping_calls", J::u(overlapping))]));
     }
@@ -201,10 +301,12 @@ pub fn run(args: &Args) {
         if args.get("only-n").is_none() && !crate::cases::mine(idx, args.shard) {
             continue;
         }
+        // every fourth instance is assembled from the public constructors instead of being planned
+        let ctor = if idx % 4 == 3 && args.get("only-n").is_none() { Some(idx / 4) } else { None };
         if *is64 {
-            stress_instance::<f64>(&mut st, *pk, *n, *dir, threads, rounds, args.seed, light);
+            stress_instance::<f64>(&mut st, *pk, *n, *dir, threads, rounds, args.seed, light, ctor);
         } else {
-            stress_instance::<f32>(&mut st, *pk, *n, *dir, threads, rounds, args.seed, light);
+            stress_instance::<f32>(&mut st, *pk, *n, *dir, threads, rounds, args.seed, light, ctor);
         }
     }
     st.max("max_threads", threads);
